@@ -87,4 +87,9 @@ MUTANTS = [
     {"id": "c15-n-debug-log", "expect": "silent", "edits": [(F, "        sql_clauses = self._SQL_CLAUSES[placeholders_type]\n", "        sql_clauses = self._SQL_CLAUSES[placeholders_type]\n        logger.debug('condition %s %s %r', self.field_name, self.op, self.value)\n")]},
     {"id": "c15-value-becomes-operator", "expect": "fire", "edits": [(F, "            field_name, value = src_obj\n            op = '='\n", "            field_name, value = src_obj\n            op = '='\n            if isinstance(value, str) and value.upper() in ('IS NULL', 'IS NOT NULL'):\n                op, value = value, None\n")]},
     {"id": "c15-n-factory-op-constant-first", "expect": "silent", "edits": [(F, "            field_name, value = src_obj\n            op = '='\n", "            op = '='\n            field_name, value = src_obj\n")]},
+    # sources of the conditions (R15f by following the sequence)
+    {"id": 'c15-n-sources-one-expression', "expect": 'silent', "edits": [(F, '        # convert remaining kwargs to conditions\n        if kwargs:\n            args = list(args)\n            args.extend(sorted(kwargs.items()))\n\n        filters = [SqlFilterCondition.make(x) for x in args if x is not None]\n', '        filters = [SqlFilterCondition.make(x) for x in list(args) + sorted(kwargs.items()) if x is not None]\n')]},
+    {"id": 'c15-sources-kwargs-dropped', "expect": 'fire', "edits": [(F, '        # convert remaining kwargs to conditions\n        if kwargs:\n            args = list(args)\n            args.extend(sorted(kwargs.items()))\n\n        filters = [SqlFilterCondition.make(x) for x in args if x is not None]\n', '        filters = [SqlFilterCondition.make(x) for x in list(args) if x is not None]\n')]},
+    {"id": 'c15-sources-kwargs-twice', "expect": 'fire', "edits": [(F, '        # convert remaining kwargs to conditions\n        if kwargs:\n            args = list(args)\n            args.extend(sorted(kwargs.items()))\n\n        filters = [SqlFilterCondition.make(x) for x in args if x is not None]\n', '        args = list(args) + sorted(kwargs.items())\n        filters = [SqlFilterCondition.make(x) for x in args + sorted(kwargs.items()) if x is not None]\n')]},
+    {"id": 'c15-none-filter-truthiness', "expect": 'fire', "edits": [(F, '        # convert remaining kwargs to conditions\n        if kwargs:\n            args = list(args)\n            args.extend(sorted(kwargs.items()))\n\n        filters = [SqlFilterCondition.make(x) for x in args if x is not None]\n', '        if kwargs:\n            args = list(args)\n            args.extend(sorted(kwargs.items()))\n\n        filters = [SqlFilterCondition.make(x) for x in args if x]\n')]},
 ]
